@@ -156,34 +156,77 @@ func (e *ItvEnv) get(v ssa.Value) Itv {
 // whose edge dominates b.
 func (e *ItvEnv) At(v ssa.Value, b *ssa.BasicBlock) Itv {
 	r := e.get(v)
-	for d := b; d != nil; d = d.Idom() {
-		id := d.Idom()
-		if id == nil {
-			break
+	for pass := 0; pass < 2; pass++ { // twice: a "!= c" edge only bites once another edge moved a bound to c
+		for d := b; d != nil; d = d.Idom() {
+			id := d.Idom()
+			if id == nil {
+				break
+			}
+			// is d reached from id only through one successor edge of id's If?
+			ifi, ok := id.Instrs[len(id.Instrs)-1].(*ssa.If)
+			if !ok {
+				continue
+			}
+			// edge id->d must be the unique way into d
+			if len(d.Preds) != 1 || d.Preds[0] != id {
+				continue
+			}
+			taken := id.Succs[0] == d
+			if id.Succs[0] == id.Succs[1] {
+				continue
+			}
+			r = e.refineCur(r, v, ifi.Cond, taken)
 		}
-		// is d reached from id only through one successor edge of id's If?
-		ifi, ok := id.Instrs[len(id.Instrs)-1].(*ssa.If)
-		if !ok {
-			continue
-		}
-		// edge id->d must be the unique way into d
-		if len(d.Preds) != 1 || d.Preds[0] != id {
-			continue
-		}
-		taken := id.Succs[0] == d
-		if id.Succs[0] == id.Succs[1] {
-			continue
-		}
-		r = r.Meet(e.refine(v, ifi.Cond, taken))
 	}
 	return r
+}
+
+// refineCur applies a branch condition to the current range (handles != c at the boundaries).
+func (e *ItvEnv) refineCur(cur Itv, v ssa.Value, cond ssa.Value, taken bool) Itv {
+	cur = cur.Meet(e.refine(v, cond, taken))
+	if cur.Bot {
+		return cur
+	}
+	c := cond
+	t := taken
+	for {
+		if u, ok := c.(*ssa.UnOp); ok && u.Op == token.NOT {
+			c = u.X
+			t = !t
+			continue
+		}
+		break
+	}
+	if b, ok := c.(*ssa.BinOp); ok && ((b.Op == token.NEQ && t) || (b.Op == token.EQL && !t)) {
+		var other ssa.Value
+		if b.X == v {
+			other = b.Y
+		} else if b.Y == v {
+			other = b.X
+		}
+		if other != nil {
+			o := e.get(other)
+			if !o.Bot && o.Lo == o.Hi {
+				if cur.Lo == o.Lo {
+					cur.Lo++
+				}
+				if cur.Hi == o.Lo {
+					cur.Hi--
+				}
+				if cur.Lo > cur.Hi {
+					return bot
+				}
+			}
+		}
+	}
+	return cur
 }
 
 // onEdge: range of v when flowing along pred -> succ.
 func (e *ItvEnv) onEdge(v ssa.Value, pred, succ *ssa.BasicBlock) Itv {
 	r := e.At(v, pred)
 	if ifi, ok := pred.Instrs[len(pred.Instrs)-1].(*ssa.If); ok && pred.Succs[0] != pred.Succs[1] {
-		r = r.Meet(e.refine(v, ifi.Cond, pred.Succs[0] == succ))
+		r = e.refineCur(r, v, ifi.Cond, pred.Succs[0] == succ)
 	}
 	return r
 }
